@@ -123,3 +123,7 @@ func vfBound(q, t int) int {
 
 // vfHarnesses is the registry used by the native replay test.
 var vfHarnesses = map[string]func(){}
+
+// vfMapOrder: under the engine, selects the order in which maps are ranged over (0 insertion, 1
+// reverse insertion); natively Go's own unspecified order applies.
+func vfMapOrder(k int) {}
